@@ -119,7 +119,7 @@ def meta_cases(draw, tier, first=None, families=None, max_len=6, reverse_mode=Fa
                           kinks_ok=not reverse_mode))
     case = dict(pr)
     if Dmax is None:
-        Dmax = (4 if reverse_mode else 5) if tier == 'quick' else (5 if reverse_mode else 7)
+        Dmax = (4 if reverse_mode else 7) if tier == 'quick' else (6 if reverse_mode else 10)
     D = draw(st.sampled_from([d for d in ([10, 9, 10, 8, 6] if growth else [4, 3, 5, 6, 7, 2, 1, 8, 9, 10]) if Dmin <= d <= Dmax]))
     P = draw(st.sampled_from([p for p in [2, 3, 1] if p >= Pmin]))
     case['D'], case['P'] = D, P
